@@ -394,12 +394,10 @@ class RenderIterator:
         if self._closed:
             raise FinalizedIteratorError("This iterator has been finalized") from None
 
-        self._padding = (
-            padding.resolve(get_terminal_size())
-            if isinstance(padding, AlignedPadding) and padding.relative
-            else padding
-        )
+        if isinstance(padding, AlignedPadding) and padding.relative:
+            padding = padding.resolve(get_terminal_size())
         self._padded_size = padding.get_padded_size(self._renderable_data.size)
+        self._padding = padding
 
     def set_render_args(self, render_args: RenderArgs) -> None:
         """Sets the render arguments.
